@@ -1630,7 +1630,10 @@ fn has_deprecated<'a>(attrs: impl IntoIterator<Item = &'a Attribute>) -> bool {
     attrs.into_iter().any(|a| {
         a.path().is_ident("deprecated")
             || ((a.path().is_ident("allow") || a.path().is_ident("expect"))
-                && a.meta.to_token_stream().to_string().contains("deprecated"))
+                && {
+                    let lints = a.meta.to_token_stream().to_string();
+                    lints.contains("deprecated") || lints.contains("warnings")
+                })
     })
 }
 /// Lint attributes for the generated impls: the item's own lint attributes are carried over, as the standard derives do,
